@@ -27,6 +27,9 @@ CLAIMED["C07"] = ("parse.function / parse.class_(merge __init__) on definitions 
 CLAIMED["C12"] = ("determinism: set-iteration order as solver variables (ordered-set shim over OrderedDict/set/frozenset in every doctrans module) on "
     "partially documented definitions, frame condition on module globals / function attributes with symbolic content, f-after-g for every pair; "
     "plus a source scan for un-interceptable set iteration and a PYTHONHASHSEED sweep as process-level cross-check", "DESIGN.md#c12")
+CLAIMED["C18"] = ("word-wrap transparency with the WIDTH as the solver variable: fill/line_length rebound to a symbolic int in every doctrans module, "
+    "real textwrap executed symbolically on concrete text, parse(wrapped) vs parse(unwrapped); the DOCTRANS_LINE_LENGTH read path re-executed from "
+    "pure_utils' own AST with a symbolic digit string", "DESIGN.md#c18")
 NA = {
     "C19": "gen: every data path crosses importlib / inspect.getsource / compile+exec / file output, no symbolic data path is left; what remains is enumeration of a few concrete configurations, which is not this technique (DESIGN.md §C19)",
 }
